@@ -458,6 +458,7 @@ def execute(case):
             chk = 'string_direction' if kind == 'string' else 'vector_direction'
             sg = {'sign': string_sign(arg)} if kind == 'string' else {'variant': name, 'sign': sign}
             cnt['checks'] += 1
+            arg_before = np.array(arg, copy=True) if isinstance(arg, np.ndarray) else None
             try:
                 im = Impl(pym, grid, arg, ns, par)
             except Exception as exc:  # noqa
@@ -469,6 +470,18 @@ def execute(case):
                        {'direction_given': arg, 'error': f"{type(exc).__name__}: {exc}"[:300]},
                        narrowed(fields[0][0] if fields else None, form=name))
                 continue
+            if arg_before is not None:
+                # the array handed to the constructor is the caller's: it is neither modified nor followed afterwards
+                cnt['checks'] += 1
+                if not exact_equal(arg, arg_before):
+                    report('direction_argument_modified', {'variant': name, 'sign': sign},
+                           {'direction_given': arg_before, 'array_after_construction': arg.copy()},
+                           narrowed(fields[0][0] if fields else None, form=name))
+                    arg[...] = arg_before
+                keep = arg            # the filter below must keep printing in the direction given at construction ...
+                arg = arg_before.copy()
+                other = np.roll(arg_before, 1) * -1.0
+                keep[...] = other     # ... although the caller re-uses the array for another direction
             forms[name] = (im, arg, kind, chk, sg)
             got = im.direction_attribute()
             cnt['checks'] += 1
